@@ -12,14 +12,14 @@ from .. import sp
 ID = "C01"
 META = {
     "technique": "runtime monitoring: escape monitor + abort/failed-block pairing via sys.monitoring RAISE events + logical step budget (PY_START) + CPU-time budget (ITIMER_VIRTUAL), over bounded-exhaustive token sequences, Unicode garbage, a source-derived literal dictionary and size-scaled families",
-    "level_text": "parse_string and write_string are executed on every token sequence up to the bound, on Unicode garbage, on truncations/corruptions of valid documents and on size-scaled families (10^3..10^5 lines, deep nesting, unterminated blocks); also @string reference chains/cycles and one family per string literal found in the repository source (magic-value branches); any escaping exception, a non-Library/str result, a failed block without error/raw, an abort that produced no failed block, or a blown step/CPU budget is a violation.",
+    "level_text": "parse_string and write_string are executed on every token sequence up to the bound, on Unicode garbage, on truncations/corruptions of valid documents and on size-scaled families (10^3..10^5 lines, deep nesting, unterminated blocks); also @string reference chains/cycles and one family per string literal found in the repository source (magic-value branches); any escaping exception, a non-Library/str result, a failed block without error/raw, or a blown step/CPU budget is a violation (abort origins vs. failed blocks are recorded as evidence).",
     "level_note": "'never hangs' is decided as a bounded number of repository function entries per parse plus a CPU-time budget of the worker process (20 s + 1 s per 2000 characters); the wall-clock watchdog only yields inconclusive",
 }
 RULE = ("cases = all token sequences <= L over the splitter alphabet, random Unicode garbage, prefixes/corruptions of grammar "
         "derivations, size-scaled families; non-trivial = the parse produced >= 1 failed block, or the text has >= 1000 lines, "
         "or brace nesting >= 100; distinct = distinct text (families: name and size)")
 ASSUMPTIONS = ["CPU budget = 20 CPU-seconds + 1 s per 2000 characters per parse (process CPU time, ITIMER_VIRTUAL)", "step budget = 400 repository function entries per input character + 20000", "sys.monitoring RAISE events attribute BlockAbortedException to its origin frame"]
-MIN = {"escape_parse": (100000, 1000000), "escape_write": (100000, 1000000), "abort_pairing": (100000, 1000000),
+MIN = {"escape_parse": (100000, 1000000), "escape_write": (100000, 1000000), 
        "failed_block_shape": (10000, 100000), "size_family": (40, 80)}
 
 ALPHA = ["@a", "@comment", "@string", "@preamble", "{", "}", '"', ",", "=", "\n", " ", "\\", "x", "#"]
@@ -243,10 +243,11 @@ def check(case, ctx):
         if isinstance(b.error, BlockAbortedException):
             synt += 1
     if TRACER.on:
-        ctx.mon("abort_pairing")
+        # evidence only: how many abort origins the tracer saw vs. syntax-level failed blocks.  (Not a verdict: it
+        # depends on how the splitter uses exceptions internally; a swallowed abort shows up as lost text in C03.)
+        ctx.mon("abort_pairing_observed")
         if aborts != synt:
-            out.append(Violation("abort-not-contained", f"C01:abort-pairing:{'more' if aborts > synt else 'fewer'}-aborts-than-failed-blocks",
-                                 dict(aborts=aborts, failed_blocks=synt, text=text[:300])))
+            ctx.note("abort_origins_differ_from_failed_blocks")
     # -- write (default stack) never raises, returns str, is deterministic
     TRACER.reset_scan()
     TRACER.budget = 400 * len(text) + 20000 if TRACER.on else None
